@@ -2,6 +2,7 @@ package main
 
 import (
 	"fmt"
+	"github.com/goghcrow/yae/compiler"
 	"os"
 	"os/exec"
 	"strings"
@@ -110,6 +111,11 @@ func specialCases() []Case {
 	// (g) a dynamic call site evaluated several times with different function values in the
 	// environment: every back end must call the CURRENT value of the callee expression
 	cs = append(cs, dynamicCalleeCase())
+
+	// (h) re-entrancy: a host function evaluates the SAME compiled expression again while it is
+	// running (no goroutine involved); every back end must behave as if each evaluation had its
+	// own machine state
+	cs = append(cs, reentrantCase())
 
 	// (d) dynamic call of a lazy function value: run in a child process (the VM passes raw
 	// arguments where thunks are expected, which can crash the process)
@@ -225,6 +231,86 @@ func dynamicCalleeCase() Case {
 	}
 	if !strings.HasSuffix(results[0], "=1,2,1,2") {
 		c.Oracle, c.OracleID = "a dynamic call does not call the current value of its callee (expected 1,2,1,2): "+c.Want, "backend-divergence"
+	}
+	return c
+}
+
+// reentrantCase: `if(n <= 1, 1, n * sub(n - 1))` where the host function `sub(k)` evaluates the
+// very same compiled closure with n = k: factorial by re-entering the compiled expression; also a
+// lazy variant in which the re-entry happens inside a forced thunk.
+func reentrantCase() Case {
+	c := Case{Human: "re-entrant evaluation: a host function evaluates the same compiled expression again", Tags: []string{"special:reentrant"}, Nontriv: true, Want: "ok"}
+	if guardBegin(c.Human) {
+		return crashCase(c.Human)
+	}
+	defer guardEnd()
+	programs := []struct {
+		src  string
+		want func(n float64) float64
+	}{
+		{`if(n <= 1, 1, n * sub(n - 1))`, func(n float64) float64 {
+			r := 1.0
+			for k := 2.0; k <= n; k++ {
+				r *= k
+			}
+			return r
+		}},
+		{`n <= 0 ? 0 : n + sub(n - 1)`, func(n float64) float64 { return n * (n + 1) / 2 }},
+		{`[n, if(n <= 0, 0, sub(n - 1))][0] + if(n <= 0, 0, len([sub(0), sub(0)]))`, func(n float64) float64 {
+			if n <= 0 {
+				return 0
+			}
+			return n + 2
+		}},
+	}
+	var bad []string
+	for _, pr := range programs {
+		for _, b := range backends[:3] {
+			res := func() (r string) {
+				defer func() {
+					if p := recover(); p != nil {
+						r = "panic: " + fmt.Sprint(p)
+					}
+				}()
+				var cl compiler.Closure
+				var renv *val.Env
+				sub := val.Fun(types.Fun("sub", []*types.Type{types.Num}, types.Num), func(a ...*val.Val) *val.Val {
+					e := val.NewEnv()
+					e.Put("n", val.Num(a[0].Num().V))
+					return cl(e.Inherit(renv))
+				})
+				eng := newEngine(nil)
+				eng.tenv.RegisterFun(sub.Type)
+				eng.renv.RegisterFun(sub)
+				renv = eng.renv
+				parsed, perr := parseSrc(pr.src)
+				if perr != nil {
+					return "does not parse"
+				}
+				d := trans.Desugar(parsed)
+				env0 := types.NewEnv()
+				env0.Put("n", types.Num)
+				types.Check(d, env0.Inherit(eng.tenv))
+				cl = b.c(d, eng.renv)
+				out := []string{}
+				for _, n := range []float64{0, 1, 4, 6} {
+					e := val.NewEnv()
+					e.Put("n", val.Num(n))
+					v := cl(e.Inherit(eng.renv))
+					if v.Type.Kind != types.KNum || v.Num().V != pr.want(n) {
+						out = append(out, fmt.Sprintf("n=%v gives %s, expected %v", n, v, pr.want(n)))
+					}
+				}
+				return strings.Join(out, "; ")
+			}()
+			if res != "" {
+				bad = append(bad, b.name+" on "+pr.src+": "+res)
+			}
+		}
+	}
+	if len(bad) > 0 {
+		c.Want = "differs"
+		c.Oracle, c.OracleID = "a compiled expression is not re-entrant: "+strings.Join(bad, " | "), "backend-divergence"
 	}
 	return c
 }
